@@ -197,6 +197,7 @@ def c03(work, tier, seed, replay):
     if replay:
         return replay_tunnel("C03", work, tier, seed, replay)
     design, scripts, nq = ft.gen_policy_scripts(work, "host", tier, seed)
+    scripts += ft.gen_named_port_scripts(tier)
     d2 = design_check("MC_Proto", "MC_Proto.cfg", work, workers=8, timeout=600)
     out = tunnel_family("C03", work, tier, seed, scripts, design, jobs=16, extra_cov={"policy_requests_enumerated": nq, "tunnel_model_states": d2.get("distinct")})
     out.coverage["rule"] = ("requests enumerated by TLC from MC_Policy (mode x host list x user x token host x requested name incl. near-misses x port); each becomes a full "
